@@ -1,5 +1,10 @@
 (* C02 — the OVERLOAD TABLE: every call form the harness drives, with its name, the C types of its operands, the rounding
-   convention it is documented to follow, and the Gallina body of Model.v that models it.  Definitions only.
+   convention the header's convention block (gmp++_int.h, "Division/euclidean division/modulo") and the names give it, and the
+   Gallina body of Model.v that models it.  Definitions only.  Where a return type cannot hold every result of that convention
+   (`%` returning int64_t / int32_t / int16_t / double for an unsigned or double divisor) the row keeps the PROPERTY's convention
+   and carries the representability condition in `pre`; what the code returns outside it is a recorded finding, not a convention.
+   `op%.Tuc` (template at unsigned char) is KAbsTr because the header DOES document it: "Cast towards unsigned consider only the
+   absolute value" (gmp++_int.h, "Cast operators"), and the template body is that cast applied to `*this % Integer(n)`.
    The extracted driver dispatches through this table (coq/C02/ocaml/driver.ml looks the form name up in `forms`), the check
    compares the table with its own list of forms / oracle kinds on every run, and the theorems of ProofsTable.v quantify
    over it: one statement for all overloads instead of one per overload. *)
@@ -28,8 +33,11 @@ Inductive conv :=
   | KEq | KEr | KEqr           (* euclidean: 0 <= r < |d|  (quo / mod, modin, rem / divmod, quoRem) *)
   | KExact                     (* divexact: the q with n = d q *)
   | KAbsTr | KAbsCr            (* unsigned-word-returning trem / crem: |r| *)
-  | KTrTo64 | KTrTo32 | KTrTo16 (* `%` with a signed word return type narrower than the divisor's: r converted to it *)
-  | KTrDbl | KTrDblx           (* operator%(double) *)
+  | KTrFit64 | KTrFit32 | KTrFit16 (* `%` whose signed word return type is narrower than the divisor's type: the header documents
+                                  no exception to "r = a % b, |r| < |b|, a r >= 0", so the convention is KTr; the extra
+                                  precondition says when the code meets it: r representable in the return type.  Outside it
+                                  the code returns r wrapped (C02_percent_operators_narrow_return_wrap) - a FINDING. *)
+  | KTrDbl | KTrDblx           (* operator%(double): KTr under the precondition that r is an int64_t AND a double; outside: finding *)
   | KIsDiv.
 
 Definition spec (k : conv) (n d : Z) : list Z :=
@@ -39,9 +47,8 @@ Definition spec (k : conv) (n d : Z) : list Z :=
   | KEq => [equo n d] | KEr => [emod n d] | KEqr => [equo n d; emod n d]
   | KExact => [tquo n d]
   | KAbsTr => [Z.abs (trem n d)] | KAbsCr => [Z.abs (crem n d)]
-  | KTrTo64 => [to_i64 (trem n d)] | KTrTo32 => [to_i32 (trem n d)] | KTrTo16 => [to_i16 (trem n d)]
-  | KTrDbl => [round53 (to_i64 (trem n d))]
-  | KTrDblx => [round53 (to_i64 (trem n (Z.quot d 16)))]
+  | KTrFit64 | KTrFit32 | KTrFit16 | KTrDbl => [trem n d]
+  | KTrDblx => [trem n (Z.quot d 16)]
   | KIsDiv => [Z.b2z (if d =? 0 then n =? 0 else (n mod d =? 0))]
   end.
 
@@ -50,7 +57,11 @@ Definition pre (k : conv) (n d : Z) : Prop :=
   match k with
   | KIsDiv => True
   | KExact => d <> 0 /\ exists q, n = d * q
-  | KTrDblx => Z.quot d 16 <> 0
+  | KTrFit64 => d <> 0 /\ in_i64 (trem n d)
+  | KTrFit32 => d <> 0 /\ in_i32 (trem n d)
+  | KTrFit16 => d <> 0 /\ in_i16 (trem n d)
+  | KTrDbl => d <> 0 /\ in_i64 (trem n d) /\ round53 (trem n d) = trem n d
+  | KTrDblx => Z.quot d 16 <> 0 /\ in_i64 (trem n (Z.quot d 16)) /\ round53 (trem n (Z.quot d 16)) = trem n (Z.quot d 16)
   | _ => d <> 0
   end.
 
@@ -94,6 +105,14 @@ Definition forms : list form := [
   (* ---- euclidean division *)
   F2 "divmod.I" KEqr TZ TZ divmod_I; F2 "divmod.l" KEqr TZ Ti64 divmod_l; F2 "divmod.ul" KEqr TZ Tu64 divmod_ul;
   F2 "dom.divmod" KEqr TZ TZ dom_divmod; F2 "dom.quoRem" KEqr TZ TZ dom_quoRem; F2 "seq.divmod" KEqr TZ TZ divmod_I;
+  (* every two-output form with each output being each input object ("q or r may be the same object as a or b", gmp++_int_div.C);
+     the model has no objects, hence the same bodies: these rows exist so that the aliased calls are driven and compared *)
+  F2 "divmod.I@qa" KEqr TZ TZ divmod_I; F2 "divmod.I@qb" KEqr TZ TZ divmod_I; F2 "divmod.I@ra" KEqr TZ TZ divmod_I; F2 "divmod.I@rb" KEqr TZ TZ divmod_I;
+  F2 "divmod.I@qa.rb" KEqr TZ TZ divmod_I; F2 "divmod.I@qb.ra" KEqr TZ TZ divmod_I;
+  F2 "dom.divmod@qa" KEqr TZ TZ dom_divmod; F2 "dom.divmod@qb" KEqr TZ TZ dom_divmod; F2 "dom.divmod@ra" KEqr TZ TZ dom_divmod; F2 "dom.divmod@rb" KEqr TZ TZ dom_divmod;
+  F2 "dom.quoRem@qa" KEqr TZ TZ dom_quoRem; F2 "dom.quoRem@qb" KEqr TZ TZ dom_quoRem; F2 "dom.quoRem@ra" KEqr TZ TZ dom_quoRem; F2 "dom.quoRem@rb" KEqr TZ TZ dom_quoRem;
+  F2 "dom.quoRem@qa.rb" KEqr TZ TZ dom_quoRem; F2 "dom.quoRem@qb.ra" KEqr TZ TZ dom_quoRem;
+  F2 "divmod.l@qa" KEqr TZ Ti64 divmod_l; F2 "divmod.ul@qa" KEqr TZ Tu64 divmod_ul;
   F1 "dom.quo" KEq TZ TZ dom_quo; F1 "dom.quoin" KEq TZ TZ dom_quoin; F1 "dom.quo@qb" KEq TZ TZ dom_quo;
   (* ---- remainders by name *)
   F1 "trem.I" KTr TZ TZ trem_I; F1 "crem.I" KCr TZ TZ crem_I; F1 "frem.I" KFr TZ TZ frem_I;
@@ -115,8 +134,8 @@ Definition forms : list form := [
   F1 "op%=.Tf" KTr TZ Tf24 op_modeq_T;
   F1 "op%.I" KTr TZ TZ op_mod_I; F1 "op%.l" KTr TZ Ti64 op_mod_l; F1 "op%.i" KTr TZ Ti32 op_mod_i;
   F1 "op%.Ts" KTr TZ Ti16 op_mod_Ts; F1 "op%.Tc" KTr TZ Ti8 op_mod_Tc; F1 "op%.Tf" KTr TZ Tf24 op_mod_Tf;
-  F1 "op%.ul" KTrTo64 TZ Tu64 op_mod_ul; F1 "op%.UL" KTrTo64 TZ Tu64 op_mod_ul;
-  F1 "op%.u" KTrTo32 TZ Tu32 op_mod_u; F1 "op%.us" KTrTo16 TZ Tu16 op_mod_us;
+  F1 "op%.ul" KTrFit64 TZ Tu64 op_mod_ul; F1 "op%.UL" KTrFit64 TZ Tu64 op_mod_ul;
+  F1 "op%.u" KTrFit32 TZ Tu32 op_mod_u; F1 "op%.us" KTrFit16 TZ Tu16 op_mod_us;
   F1 "op%.Tuc" KAbsTr TZ Tu8 op_mod_Tuc;
   F1 "op%.d" KTrDbl TZ Tdbl op_mod_d; F1 "op%.dx" KTrDblx TZ Tdblx op_mod_dx;
   F1 "w%I.i" KTr Ti32 TZ w_mod_I; F1 "w%I.l" KTr Ti64 TZ w_mod_I; F1 "w%I.u" KTr Tu32 TZ w_mod_I; F1 "w%I.ul" KTr Tu64 TZ w_mod_I;
@@ -136,7 +155,7 @@ Definition conv_name (k : conv) : string :=
   match k with
   | KTq => "tq" | KTr => "tr" | KFq => "fq" | KFr => "fr" | KCq => "cq" | KCr => "cr"
   | KEq => "equo" | KEr => "emod" | KEqr => "divmod" | KExact => "exact" | KAbsTr => "abs_tr" | KAbsCr => "abs_cr"
-  | KTrTo64 => "tr>i64" | KTrTo32 => "tr>i32" | KTrTo16 => "tr>i16" | KTrDbl => "tr>dbl_i64" | KTrDblx => "tr_x16>dbl_i64"
+  | KTrFit64 => "tr|fits:i64" | KTrFit32 => "tr|fits:i32" | KTrFit16 => "tr|fits:i16" | KTrDbl => "tr|fits:dbl_i64" | KTrDblx => "tr_x16|fits:dbl_i64"
   | KIsDiv => "isdiv"
   end.
 Definition form_row (f : form) : string * (string * (string * string)) :=
